@@ -23,6 +23,8 @@ EXPLANATION = (
     " check_at_end / reset work on. (O5.8) every Reader / Writer the package creates (GUI included) is closed on"
     " every path, so the end-of-data verdict is always asked. (O5.9) a row the row writer refuses after validation"
     " must not be registered by the checks (known finding)."
+    " Added in round 10: (O5.3) check_row receives the cells of the row, not the typed values the fields"
+    " return (duplicates are decided on the texts)."
 )
 ASSUMPTIONS = ["Python's eval of the comparison text; dictionary look-up by tuple equality"]
 
